@@ -318,12 +318,26 @@ func init() {
 										use("math." + s.Sel.Name)
 									case "math/rand", "crypto/rand", "math/rand/v2":
 										use("rand")
+									case "maps", "golang.org/x/exp/maps":
+										use("maps." + s.Sel.Name) // Keys/Values/All… yield map order
+									case "os", "syscall", "runtime":
+										if s.Sel.Name == "Getenv" || s.Sel.Name == "Getpid" || s.Sel.Name == "Hostname" || s.Sel.Name == "NumCPU" || s.Sel.Name == "NumGoroutine" {
+											use("env." + s.Sel.Name)
+										}
 									case "time":
 										if s.Sel.Name == "Now" || s.Sel.Name == "Since" || s.Sel.Name == "Until" {
 											use("time")
 										}
 									}
 									return true
+								}
+							}
+							// map order through reflection or sync.Map
+							if sel, ok := p.TypesInfo.Selections[s]; ok {
+								recv := typeStr(sel.Recv())
+								if (recv == "reflect.Value" && (s.Sel.Name == "MapKeys" || s.Sel.Name == "MapRange")) ||
+									((recv == "sync.Map" || recv == "*sync.Map") && s.Sel.Name == "Range") {
+									use("maporder." + s.Sel.Name)
 								}
 							}
 						}
